@@ -373,6 +373,8 @@ def _havoc_path(ex, state, base, parts, contract):
 
 def havoc_object(ex, state, ref):
     for g, a in alts_of(ref):
+        if isinstance(a, VPtr):
+            a = a.base
         if not isinstance(a, VRef):
             continue
         o = state.heap[a.oid]
@@ -385,7 +387,8 @@ def havoc_object(ex, state, ref):
             from . import models
             models.havoc_dict(ex, state, a)
         elif o.kind == "barray":
-            o.arr = z3.Array(fresh_name("hv_arr"), z3.IntSort(), z3.BitVecSort(8))
+            o.arr = z3.Array(fresh_name("hv_arr"), z3.IntSort(), z3.IntSort())
+            # the length of a C buffer / array('B') under element stores does not change
         elif o.shape is not None:
             sh = ex.reg.shapes[o.shape]
             for fld, typ in sh.fields.items():
@@ -410,6 +413,14 @@ def fresh_like(ex, state, v, name):
         return VReal(z3.Real(fresh_name(name)))
     if isinstance(v, VNoneT):
         return VOpaque(fresh_name(name))
+    if isinstance(v, VPtr):
+        return VPtr(v.base, z3.Int(fresh_name(name + "_off")))
+    if isinstance(v, VABytes):
+        return VABytes(z3.Array(fresh_name(name), z3.IntSort(), z3.IntSort()), v.n)
+    if isinstance(v, VTuple):
+        return VTuple([fresh_like(ex, state, x, "%s_%d" % (name, k)) for k, x in enumerate(v.items)])
+    if isinstance(v, VRef):
+        return v
     if isinstance(v, VUnion):
         kinds = {a.kind for _, a in v.alts}
         if kinds <= {"none", "int"}:
@@ -478,6 +489,17 @@ def instantiate(ex, state, cls, args, kwargs):
         return unknown_call(ex, state, "class:" + name, args, kwargs, None)
     ci = cls.info
     is_exc = bool(ex.class_bases(cls) & {"Exception", "BaseException"})
+    c0, m0 = ci.find_method("__init__")
+    ictr = ex.reg.contracts.get("%s:%s.__init__" % (c0.module, c0.name)) if m0 is not None else None
+    cur = ex.reg.current
+    if ictr is not None and not (cur is not None and ictr.addr in cur.inline_calls) \
+            and ictr.params.get("self", "").startswith("obj:"):
+        # constructor under contract: the new object gets the declared shape, its fields are set by the contract
+        ref = ex.reg.fresh_obj(ex, state, ictr.params["self"][4:], "new_" + name)
+        state.heap[ref.oid].cls = cls
+        fv = VFunc("repo", "__init__", finfo=loader.FuncInfo(c0.module, c0.name + ".__init__", m0, c0), self_val=ref)
+        call_repo(ex, state, fv, args, kwargs)
+        return ref
     o = HObj("exc" if is_exc else "inst", cls)
     ref = state.alloc(o)
     if is_exc:
